@@ -4,7 +4,7 @@ import itertools
 import threading
 
 from . import gen
-from .props import Acc, quiet, outcome, jkey, edesc, element_cases, serial
+from .props import srepr, Acc, quiet, outcome, jkey, edesc, element_cases, serial
 from runtime.monitor import obs
 from spec import pyspec
 
@@ -127,7 +127,7 @@ def conforms(r, exp, v, path="$"):
         return shape_eq(r, exp[1], path)
     if kind == "list":
         if not isinstance(r, list) or len(r) != len(exp[1]):
-            return f"{path}: array of length {len(exp[1])} came back as {r!r:.80}"
+            return f"{path}: array of length {len(exp[1])} came back as {srepr(r)[:80]}"
         for i, (ri, ei) in enumerate(zip(r, exp[1])):
             d = conforms(ri, ei, None, f"{path}[{i}]")
             if d:
@@ -166,7 +166,7 @@ def shape_eq(r, v, path):
     from statham.schema.constants import NotPassed
     if isinstance(v, list):
         if not isinstance(r, list) or len(r) != len(v):
-            return f"{path}: array {v!r:.60} came back as {r!r:.60}"
+            return f"{path}: array {srepr(v)[:60]} came back as {srepr(r)[:60]}"
         for i, (a, b) in enumerate(zip(r, v)):
             d = shape_eq(a, b, f"{path}[{i}]")
             if d:
@@ -175,7 +175,7 @@ def shape_eq(r, v, path):
     if isinstance(v, dict):
         keys = set(r._dict) if is_model(r) else set(r.keys()) if isinstance(r, dict) else None
         if keys is None:
-            return f"{path}: object {v!r:.60} came back as {r!r:.60}"
+            return f"{path}: object {srepr(v)[:60]} came back as {srepr(r)[:60]}"
         if not set(v) <= keys:
             return f"{path}: members {sorted(set(v) - keys)} dropped"
         for k in v:
@@ -198,7 +198,7 @@ def c04_covers(run):
     acc = Acc(run, "C04-covers", "DSL element pool level 2 (+inheritance, used-parent-first) x value pool; every accepted value compared member by member with the returned model")
     w = quiet()
     try:
-        vals = gen.values_for(None)
+        vals = gen.values_for(None) + C04_VALUES
         pool = list(element_cases(2)) + list(c04_extra())
         for i, mk, e in pool:
             for v in vals:
@@ -218,6 +218,11 @@ def c04_covers(run):
     finally:
         w.__exit__(None, None, None)
     return acc.result()
+
+
+C04_VALUES = [{"id": 1, "price": 2}, {"id": 1, "price": 2.5, "class": "k"}, {"price": 3}, {"price": 3, "other": {"z": 1}},
+              [{"x": 1}, {"y": 2}, 3], [{"x": 1}], [{"x": 1, "label": "l"}, "s"], [1, "a"], [1, 2, "a"], [1], [1, 2], [1, 2, 3], [1.5, 2, "x"],
+              {"n": 1}, {"inner": {"n": 1}, "many": [{"n": 2}]}, {"o": {"a": "s", "b": 4}}]
 
 
 def c04_extra():
@@ -345,15 +350,15 @@ def c13_reconfig(run):
                     k2, r2 = outcome(twin, copy.deepcopy(v))
                     acc.case(key, nontrivial=(k2 == "ok"))
                     if k1 != k2:
-                        acc.fail(key, f"reconfigured element {k1} ({r1!r:.80}) but a freshly built element with the same configuration {k2}")
+                        acc.fail(key, f"reconfigured element {k1} ({srepr(r1)[:80]}) but a freshly built element with the same configuration {k2}")
                     elif k1 == "ok" and obs(plain(r1)) != obs(plain(r2)):
-                        acc.fail(key, f"reconfigured element returned {r1!r:.80}, fresh twin {r2!r:.80}")
+                        acc.fail(key, f"reconfigured element returned {srepr(r1)[:80]}, fresh twin {srepr(r2)[:80]}")
                 np = pyspec._np()()
                 k1, r1 = outcome((lambda x: e(x)) if not isinstance(e, type) else (lambda x: e()), np)
                 k2, r2 = outcome((lambda x: twin(x)) if not isinstance(twin, type) else (lambda x: twin()), np)
                 acc.case(f"{name}/warm{warm} <- <no value>")
                 if k1 != k2 or (k1 == "ok" and obs(plain(r1)) != obs(plain(r2))):
-                    acc.fail(f"{name}/warm{warm} <- <no value>", f"default after reconfiguration: {r1!r:.80} vs fresh twin {r2!r:.80}")
+                    acc.fail(f"{name}/warm{warm} <- <no value>", f"default after reconfiguration: {srepr(r1)[:80]} vs fresh twin {srepr(r2)[:80]}")
     finally:
         w.__exit__(None, None, None)
     return acc.result()
@@ -398,7 +403,7 @@ def c14_threads(run):
                     key = f"{edesc(e)} <- {jkey(v)}"
                     acc.case(key + f" [thread {t}]", nontrivial=(k1 == "ok"))
                     if k1 != k2 or (k1 == "ok" and obs(plain(r1)) != obs(plain(r2))):
-                        acc.fail(key, f"concurrent call: {k2} {r2!r:.80}; alone: {k1} {r1!r:.80}")
+                        acc.fail(key, f"concurrent call: {k2} {srepr(r2)[:80]}; alone: {k1} {srepr(r1)[:80]}")
             if (obs(e), serial(e)) != before:
                 acc.fail(f"{edesc(mk())} after concurrent use", "element tree changed by concurrent validation")
     finally:
@@ -534,7 +539,7 @@ def c15_inheritance(run):
                             if k != k1:
                                 acc.fail(key, f"{label}: inherited class {k} but the flat declaration {k1}")
                             elif k == "ok" and obs(plain(r)) != obs(plain(r1)):
-                                acc.fail(key, f"{label}: model {r!r:.80} vs flat declaration {r1!r:.80}")
+                                acc.fail(key, f"{label}: model {srepr(r)[:80]} vs flat declaration {srepr(r1)[:80]}")
                         if k0 == "ok" and i > 0 and isinstance(v, dict) and not isinstance(r0, classes[0]):
                             acc.fail(key, "instance of the subclass is not an instance of the parent")
                     try:
